@@ -451,7 +451,7 @@ def run(ctx):
                    'rest_with_last' % (kmax + 1)] = True
 
     # ---- seeded sampling with quotas per oracle class
-    for i, rng in blocks('paths', ctx.pick(40000, 1600000)):
+    for i, rng in blocks('paths', ctx.pick(40000, 6000000)):
         quota = i % 8
         minsegs = rng.randrange(1, 5)
         maxsegs = rng.choice(maxsegs_options(minsegs))
@@ -512,7 +512,7 @@ def run(ctx):
     ctx.exhaustive['split_by_commas: singles and pairs of items of length <= 2, triples of length <= 1, over '
                    '{comma, quote, backslash, space, a, n}'] = True
     # seeded lists
-    for i, rng in blocks('lists', ctx.pick(11000, 200000)):
+    for i, rng in blocks('lists', ctx.pick(11000, 600000)):
         own(dict(kind='commas', items=[random_item(rng) for _ in range(1 + i % 5)]))
     # damaged texts, equal quota per malformation type
     for i, rng in blocks('damage', ctx.pick(3600, 54000)):
